@@ -219,7 +219,7 @@ def work(case):
     from vlib.worker import arm_cpu
     if case["kind"] == "seq":
         return work_seq(case)
-    arm_cpu(60)
+    arm_cpu(case.get("cpu", 60))
     t_cpu = time.process_time()
     data = iso.make_input(case["recipe"])
     kind = case["kind"]
@@ -262,6 +262,7 @@ def work(case):
     out["n_results"] = len(ra)
     try:
         rb = list(fn(io.BytesIO(data), path))
+        _budget_check()
         db = {}
         for i, r in enumerate(rb[:10]):
             for k, v in field_digests(r.to_json()).items():
@@ -270,6 +271,7 @@ def work(case):
             if da.get(k) != db.get(k):
                 out["problems"].append({"cmp": "same-process-repeat", "field": k.split(".", 1)[1] if "." in k else k})
     except Exception as e:
+        _budget_check()
         out["problems"].append({"cmp": "same-process-repeat", "field": f"second-run-raises-{type(e).__name__}"})
     # observer words
     rng = random.Random(f"obs:{case['id']}:{case.get('wseed', 0)}")
@@ -279,6 +281,7 @@ def work(case):
         word = [rng.choice(OBSERVERS) for _ in range(rng.randint(3, 12))]
         last_val = {}
         for name in word:
+            _budget_check()
             try:
                 v = _sha(_observe(r, name))
             except Exception as e:
@@ -367,6 +370,8 @@ def main(run):
     run.assumptions = ["the path is non-existent (or None) so that file metadata cannot depend on the host",
                        "a worker keeps the last few cheap-to-digest results of earlier cases alive; which cases meet in one worker is decided by the pool (the sequence cases are the deterministic form)", "field-level digests two levels deep localise a difference to a field name"]
     cases = list(gen_cases(run))
+    for c in cases:
+        c["cpu"] = run.n(25, 60)        # CPU budget of one case (two extractions + observer word); cases over it are counted, not compared
     by_seed = {}
     problems = {}
     notes = {}
